@@ -1,5 +1,5 @@
 (* Entry points of the walker and raw-scanner models. *)
-From DippyV Require Import Base.Str Base.Verdict Base.Sx Base.Tree Model.RawScan Model.Walker Entry.Common.
+From DippyV Require Import Base.Str Base.Verdict Base.Sx Base.Tree Model.RawScan Model.Walker Model.Cover Entry.Common.
 
 Definition sx_ctx (c : ctx) : list sx := [A (fst c); sx_of_bool (snd c)].
 
@@ -29,5 +29,9 @@ Section Orc.
       Some (sx_of_verdict (the_analyze_nodes (sx_str (a 0%nat), sx_bool (a 1%nat))
                              (opt_of_sx (fun x => map tree_of_sx (sx_list x)) (a 2%nat))))
     else if is_cmd cmd "scan_raw" then Some (sx_of_raw (scan_raw (sx_str (a 0%nat))))
+    else if is_cmd cmd "coverage" then
+      (* unary counts: (executable nodes in the tree, executable nodes reached by the specification) *)
+      let p := coverage (tree_of_sx (a 0%nat)) in
+      Some (L [A (repeat 49 (fst p)); A (repeat 49 (snd p))])
     else None.
 End Orc.
